@@ -43,6 +43,7 @@ include!("suite_rot.rs");
 include!("suite_codec.rs");
 include!("suite_init.rs");
 include!("suite_beacon.rs");
+include!("suite_node.rs");
 
 pub struct State {
     pure_: PureState,
@@ -50,11 +51,12 @@ pub struct State {
     core: CoreState,
     rot: RotState,
     init: InitSuite,
+    node: NodeSuite,
 }
 
 impl State {
     fn new() -> Self {
-        State { pure_: PureState::new(), table: TableState::new(), core: CoreState::new(), rot: RotState::new(), init: InitSuite::new() }
+        State { pure_: PureState::new(), table: TableState::new(), core: CoreState::new(), rot: RotState::new(), init: InitSuite::new(), node: NodeSuite::new() }
     }
 
     fn step(&mut self, line: &str) -> String {
@@ -86,6 +88,11 @@ impl State {
         }
         if let Some(r) = beacon_step(&toks) {
             return r;
+        }
+        if toks[0].starts_with('n') {
+            if let Some(r) = self.node.step(&toks) {
+                return r;
+            }
         }
         "bad-op".to_string()
     }
